@@ -277,7 +277,7 @@ fn bulk() -> bool {
 
 fn bulk_pipe() -> PipeCfg {
     let ch = |v| if v == 0 { pipe::Chunking::Random } else { pipe::Chunking::Full };
-    PipeCfg { capacity: [1024, 1 << 16, 1 << 20][choose(3)], read_chunking: ch(choose(3)), write_chunking: ch(choose(3)), pending_permille: [0, 0, 30][choose(3)], eintr_permille: 0 }
+    PipeCfg { capacity: [1024, 1 << 16, 1 << 20][choose(3)], read_chunking: ch(choose(3)), write_chunking: ch(choose(3)), pending_permille: [0, 0, 30][choose(3)], eintr_permille: 0, staged: false }
 }
 
 fn draw_plans() -> Vec<(u8, Plan)> {
@@ -445,7 +445,10 @@ fn run_mplex() -> SimResult {
     cfg.set_split_send_size(split).set_max_buffer_size(maxbuf).set_max_buffer_behaviour(libp2p_mplex::MaxBufferBehaviour::Block);
     note_val("split", split as u64);
     note_val("maxbuf", maxbuf as u64);
-    let (a, b) = if bulk() { pipe::pair_cfg(bulk_pipe(), bulk_pipe()) } else { pipe::pair_cfg(PipeCfg::draw(), PipeCfg::draw()) };
+    let (a, b) = if bulk() { pipe::pair_cfg(bulk_pipe(), bulk_pipe()) } else { {
+        let staged = choose(3) == 0; // connection with buffered-writer semantics: bytes move only on flush
+        pipe::pair_cfg(PipeCfg::draw().with_staged(staged), PipeCfg::draw().with_staged(staged))
+    } };
     let ctl = a.ctl();
     let ma = futures::executor::block_on(cfg.clone().upgrade_outbound(a, "/mplex/6.7.0")).unwrap();
     let mb = futures::executor::block_on(cfg.upgrade_inbound(b, "/mplex/6.7.0")).unwrap();
@@ -463,7 +466,10 @@ fn run_yamux() -> SimResult {
         c.capacity = 4 << 20;
         c
     };
-    let (a, b) = if bulk() { pipe::pair_cfg(big(bulk_pipe()), big(bulk_pipe())) } else { pipe::pair_cfg(big(PipeCfg::draw()), big(PipeCfg::draw())) };
+    let (a, b) = if bulk() { pipe::pair_cfg(big(bulk_pipe()), big(bulk_pipe())) } else {
+        let staged = choose(3) == 0;
+        pipe::pair_cfg(big(PipeCfg::draw()).with_staged(staged), big(PipeCfg::draw()).with_staged(staged))
+    };
     let ctl = a.ctl();
     let ma = futures::executor::block_on(cfg.clone().upgrade_outbound(a, "/yamux/1.0.0")).unwrap();
     let mb = futures::executor::block_on(cfg.upgrade_inbound(b, "/yamux/1.0.0")).unwrap();
